@@ -29,6 +29,7 @@ import (
 	"strconv"
 	"strings"
 	"sync"
+	"sync/atomic"
 	"time"
 
 	"github.com/cespare/xxhash"
@@ -329,7 +330,11 @@ type c14Plan struct {
 	victim  int // node index: down / child process
 	subset  uint64
 	marked  bool // bigTo / bigFrom are set
+	slow    bool // no fault, but the receiver takes 2 s per chunk: a three-chunk transfer lasts longer than the RPC timeout of a single call
 }
+
+// c14Slow: while set, every received chunk is held for two seconds (below the RPC timeout of 5 s)
+var c14Slow atomic.Bool
 
 type c14Step struct {
 	node   int
@@ -617,9 +622,14 @@ func c14RunScenario(rc *runCtx, r *rand.Rand, cl *c14Cluster, pl c14Plan, t *c14
 		hookMode  int
 		hookFired bool
 	)
+	c14Slow.Store(pl.slow)
+	defer c14Slow.Store(false)
 	cluster.VerifFaultHook = func(point string, n int) error {
 		if point != "sendshard" {
 			return nil
+		}
+		if c14Slow.Load() {
+			time.Sleep(2 * time.Second)
 		}
 		hookMu.Lock()
 		defer hookMu.Unlock()
@@ -1074,6 +1084,9 @@ func runC14(rc *runCtx) error {
 			f += " mode=" + strconv.Itoa(pl.mode)
 		}
 		hist[f]++
+		if pl.slow {
+			hist["slow receiver (2 s per chunk, three chunks)"]++
+		}
 		hist[fmt.Sprintf("servers %d->%d", len(pl.old), len(pl.new))]++
 		for _, b := range pl.big {
 			hist["big file "+sizeName(b)]++
@@ -1232,6 +1245,12 @@ func c14Plans(rc *runCtx, r *rand.Rand) []c14Plan {
 			sh := relabel(shapes[[]int{1, 5, 7}[(i+rep)%3]])
 			plans = append(plans, c14Plan{kind: sh.kind, old: sh.old, new: sh.new, nUsers: 2, fault: f, k: 1, subset: 15, real: true})
 		}
+	}
+	// (5) no fault, a slow receiver: every chunk of a three-chunk file takes 2 s (each call stays below the RPC timeout,
+	// the transfer to one destination lasts longer than it): the move completes all the same
+	{
+		sh := relabel(two[0])
+		plans = append(plans, c14Plan{kind: sh.kind, old: sh.old, new: sh.new, nUsers: 1, fault: "none", subset: 15, big: []int{2*C + 1}, slow: true})
 	}
 	for i := range plans {
 		if !plans[i].marked {
